@@ -5,6 +5,8 @@ package main
 // (as the data they denote), Native*, NewListFrom/NewObjectFrom, async variants. The callback family mirrors HeapExt.v.
 
 import (
+	"encoding/json"
+	"bytes"
 	"fmt"
 	"math"
 	"runtime/debug"
@@ -970,6 +972,24 @@ func (m *Machine) execX(o *Op) (xout string, result any, hasResult bool) {
 			}
 		}
 		m.hold(o.Name[1:]+"String", s)
+		if o.Name == "XFormat" && o.I >= 0 && o.I <= 10 {
+			// the canonical layout of the tokens String() writes, computed by encoding/json
+			var plain string
+			switch c := m.vars[o.R].(type) {
+			case at.List:
+				plain = c.String()
+			case at.Object:
+				plain = c.String()
+			}
+			var buf bytes.Buffer
+			if err := json.Indent(&buf, []byte(plain), "", strings.Repeat(" ", int(o.I))); err == nil {
+				if _, isObj := m.vars[o.R].(at.Object); !isObj && buf.String() != s { // (member order of objects varies from call to call)
+					if !strings.Contains(plain, "{") || strings.Count(plain, "\":") <= 1 {
+						m.fail("FormatString(%d) is not the canonical layout of String(): %q, want %q", o.I, s, buf.String())
+					}
+				}
+			}
+		}
 		v, ok := refDecode(s)
 		if !ok {
 			m.fail("%s returned a text that encoding/json does not decode: %q", o.Name, s)
@@ -1455,7 +1475,7 @@ func (p *Prog) xMutate() {
 }
 
 var finiteScalars = []*V{vnil(), vbool(true), vbool(false), vint(0), vint(1), vint(-7), vint(42), vfloat(1.5), vfloat(0), vfloat(math.Copysign(0, -1)),
-	vfloat(1), vstr(""), vstr("a"), vstr("b"), vstr("xyz"), vint(math.MaxInt64), vfloat(1e21), vfloat(-2.5e-7), vstr("q\"\\\né\U0001F600")}
+	vfloat(1), vstr(""), vstr("a"), vstr("b"), vstr("xyz"), vint(math.MaxInt64), vfloat(1e21), vfloat(-2.5e-7), vstr("q\"\\\né\U0001F600"), vstr("a,b"), vstr(", [x]: {y}"), vstr("\\/")}
 var numericScalars = []*V{vint(0), vint(1), vint(-7), vint(42), vint(math.MaxInt64), vint(math.MinInt64), vint(3), vfloat(1.5), vfloat(0),
 	vfloat(math.Copysign(0, -1)), vfloat(-2.25), vfloat(1e300), vfloat(-1e19), vfloat(5e-324), vint(-1), vfloat(2)}
 
@@ -1720,7 +1740,56 @@ func xProgramBody(p *Prog, r *R, prof string) {
 				}
 			}
 		case "C14x":
-			if len(ls) > 0 && (len(os) == 0 || r.chance(0.65)) {
+			if len(ls) > 0 && r.chance(0.2) {
+				// a value of a kind the list does not hold yet enters through one of the storing operations (mostly not the usual one),
+				// and the views of exactly that kind are taken straight away
+				l := pickOf(r, ls)
+				n := p.m.list(l).Count()
+				have := map[at.Type]bool{}
+				for i := 0; i < n; i++ {
+					have[p.m.list(l).TypeOf(i)] = true
+				}
+				k := pickOf(r, xKinds)
+				for _, c := range r.Perm(len(xKinds)) {
+					if !have[xKinds[c]] {
+						k = xKinds[c]
+						break
+					}
+				}
+				var v Operand
+				switch k {
+				case at.TypeObject:
+					p.do(&Op{Name: "NewObject", Vals: []Operand{{V: vstr("k")}, {V: vint(n)}}})
+					v = Operand{IsReg: true, Reg: len(p.m.vars) - 1}
+				case at.TypeList:
+					p.do(&Op{Name: "NewList", Vals: []Operand{{V: vint(n)}}})
+					v = Operand{IsReg: true, Reg: len(p.m.vars) - 1}
+				case at.TypeString:
+					v = Operand{V: vstr(pickOf(r, []string{"", "s", "new kind"}))}
+				case at.TypeBool:
+					v = Operand{V: vbool(r.chance(0.5))}
+				case at.TypeInt:
+					v = Operand{V: vint(r.Intn(100) - 50)}
+				default:
+					v = Operand{V: vfloat(pickOf(r, []float64{0.5, -2.25, 1e10, 0}))}
+				}
+				switch c := r.Intn(6); {
+				case n > 0 && c <= 2:
+					p.do(&Op{Name: "LInsert", R: l, I: int64(r.Intn(n)), Vals: []Operand{v}})
+				case n > 0 && c == 3:
+					p.do(&Op{Name: "LReplace", R: l, I: int64(r.Intn(n)), Vals: []Operand{v}})
+				case c == 4:
+					p.do(&Op{Name: "SetTF", R: l, TF: fmt.Sprintf("#%d", r.Intn(n+1)), Vals: []Operand{v}})
+				default:
+					p.do(&Op{Name: "LAdd", R: l, Vals: []Operand{v}})
+				}
+				p.do(&Op{Name: "XLSliceK", R: l, Kind: k})
+				p.do(&Op{Name: "XLForEachK", R: l, Kind: k})
+				if r.chance(0.5) {
+					p.do(&Op{Name: "XLAll", R: l, Kind: k})
+					p.do(&Op{Name: "XLFilterK", R: l, Kind: pickOf(r, []at.Type{at.TypeObject, at.TypeList, at.TypeString, at.TypeInt, at.TypeFloat}), Pred: "PAll"})
+				}
+			} else if len(ls) > 0 && (len(os) == 0 || r.chance(0.65)) {
 				p.xListOp(pickOf(r, ls), pickOf(r, []string{"filter", "map", "foreach", "foreach", "reduce", "slice", "all"}))
 			} else if len(os) > 0 {
 				p.xObjOp(pickOf(r, os), pickOf(r, []string{"map", "foreach"}))
@@ -1841,7 +1910,23 @@ func xProgramBody(p *Prog, r *R, prof string) {
 		} else if r.chance(0.42) {
 			p.xMutate()
 		} else if r.chance(0.1) {
-			p.derive() // results of SubList / Concat / Merge / Pluck / Clone / Keys / Values take part like any other container
+			nv := len(p.m.vars)
+			p.derive() // results of SubList / Concat / Merge / Pluck / Clone / Keys / Values / NewListOf take part like any other container
+			if len(p.m.vars) > nv && !p.broken {
+				// ... and are observed straight away in the profiles about serialisation and export (what a deriving operation
+				// builds need not have gone through the paths Add / Set go through)
+				last := len(p.m.vars) - 1
+				switch prof {
+				case "C02x":
+					p.do(&Op{Name: "XString", R: last})
+				case "C01x":
+					p.do(&Op{Name: "ParseBack", R: last})
+				case "C16x":
+					p.do(&Op{Name: "XFormat", R: last, I: int64(r.Intn(11))})
+				case "C13x":
+					p.do(&Op{Name: "XNative", R: last})
+				}
+			}
 		} else {
 			step()
 		}
@@ -1873,7 +1958,16 @@ func (p *Prog) derive() {
 			plain = append(plain, x)
 		}
 	}
-	switch p.r.Intn(6) {
+	switch p.r.Intn(7) {
+	case 6:
+		// the same value n times (a string, a number, or one live container at every position)
+		var v Operand
+		if len(p.m.vars) > 0 && p.r.chance(0.4) {
+			v = Operand{IsReg: true, Reg: p.r.Intn(len(p.m.vars))}
+		} else {
+			v = p.scalar()
+		}
+		p.do(&Op{Name: "NewListOf", Vals: []Operand{v}, I: int64(2 + p.r.Intn(3))})
 	case 0, 1:
 		if len(ls) > 0 {
 			r := pickOf(p.r, ls)
